@@ -31,13 +31,13 @@ const caseTail = "Definition M := Eval vm_compute in mismatches check_case cases
 	"Definition NSYS := Eval vm_compute in (count_if is_sys cases : Z).\nPrint NSYS.\n" +
 	"Definition NSOCKETS := Eval vm_compute in (sum_Z fwd_sockets cases : Z).\nPrint NSOCKETS.\n"
 
-// runUDP: -extra selects parts ("pure,fwd,full,replyloop,alphabet,cfgsize,sys,idle,race,heartbeat"; default all).  -n scales the pure part;
+// runUDP: -extra selects parts ("pure,fwd,full,replyloop,alphabet,cfgsize,sys,idle,race,heartbeat,limit"; default all).  -n scales the pure part;
 // the other parts have fixed scenario lists (longer in the thorough tier).
 func runUDP(cfg *hx.RunCfg) error {
 	hx.Quiet()
 	parts := cfg.Extra
 	if parts == "" {
-		parts = "pure,fwd,full,replyloop,alphabet,cfgsize,sys,idle,race,heartbeat"
+		parts = "pure,fwd,full,replyloop,alphabet,cfgsize,sys,idle,race,heartbeat,limit"
 	}
 	has := func(p string) bool { return strings.Contains(","+parts+",", ","+p+",") }
 	g := hx.NewGen(cfg.Seed)
@@ -71,6 +71,12 @@ func runUDP(cfg *hx.RunCfg) error {
 	if has("heartbeat") {
 		hbDone = make(chan hbOut, 1)
 		go func() { c, f := runHeartbeat(cfg, hx.NewGen(cfg.Seed+3000)); hbDone <- hbOut{c, f} }()
+	}
+
+	var limDone chan hbOut
+	if has("limit") {
+		limDone = make(chan hbOut, 1)
+		go func() { c, f := runLimit(cfg, cfg.Seed+4000); limDone <- hbOut{c, f} }()
 	}
 
 	if has("pure") {
@@ -111,6 +117,13 @@ func runUDP(cfg *hx.RunCfg) error {
 		ho := <-hbDone
 		cases = append(cases, ho.cases...)
 		for _, f := range ho.fs {
+			addFail(&fails, f)
+		}
+	}
+	if limDone != nil {
+		lo := <-limDone
+		cases = append(cases, lo.cases...)
+		for _, f := range lo.fs {
 			addFail(&fails, f)
 		}
 	}
